@@ -662,6 +662,10 @@ class Quantity:
         :returns:
             An object with values to the passed unit.
         """
+        # same unit: no conversion needed (the unit of a derived quantity can't be parsed back)
+        if to_unit == self._unit:
+            return value
+
         return self._unit_database.Convert(
             self._composing_categories, self._composing_units, to_unit, value
         )
